@@ -842,6 +842,13 @@ class RestAPI(object):
                     return aws_error("InvalidName"), 400
 
                 input = params.get("input", "{}")
+                if not isinstance(input, str):  # input must be a JSON *string*
+                    self.logger.error(
+                        "RestAPI StartExecution: input for execution '{}' is "
+                        "not a string.".format(name)
+                    )
+                    return aws_error("InvalidExecutionInput"), 400
+
                 """
                 First check if the input length has exceeded the 262144 character
                 quota described in Stepfunction Quotas page.
@@ -977,6 +984,13 @@ class RestAPI(object):
                     return aws_error("InvalidName"), 400
 
                 input_as_string = params.get("input", "{}")
+                if not isinstance(input_as_string, str):  # must be a JSON *string*
+                    self.logger.error(
+                        "RestAPI StartSyncExecution: input for execution '{}' "
+                        "is not a string.".format(name)
+                    )
+                    return aws_error("InvalidExecutionInput"), 400
+
                 """
                 First check if the input length has exceeded the 262144 character
                 quota described in Stepfunction Quotas page.
